@@ -108,6 +108,7 @@ func main() {
 	noSelftest := flag.Bool("no-selftest", false, "thorough tier without the variant self-test")
 	config := flag.String("config", "", "build configuration: '' (linux/amd64), windows, darwin, datadog")
 	dumpCodec := flag.Bool("dump-codec", false, "print the encoder/decoder field tables and exit")
+	dumpKnown := flag.String("dump-known", "", "write the table of known function, field and constant names of -repo to this file and exit")
 	selftestOnly := flag.String("selftest", "", "run only the variant self-test of the given property (comma list or 'all') and print the outcome")
 	flag.Parse()
 
@@ -118,6 +119,20 @@ func main() {
 			os.Exit(2)
 		}
 		fmt.Print(c.dumpCodec())
+		return
+	}
+	if *dumpKnown != "" {
+		known = knownTable{} // dump the program as it is, without aliasing against an older table
+		knownJSON = nil
+		c, err := load(*repo, *overlay, nil)
+		if err != nil {
+			fmt.Println(err)
+			os.Exit(2)
+		}
+		if err := c.dumpKnown(*dumpKnown); err != nil {
+			fmt.Println(err)
+			os.Exit(2)
+		}
 		return
 	}
 	if *selftestOnly != "" {
